@@ -128,6 +128,21 @@ func runHistory(p program, hist []req, classify bool) string {
 	hits, evictions, reRequested := 0, 0, 0
 	evicted := map[string]bool{}
 	for i, q := range hist {
+		if q.method == "+GET" {
+			// a route is added while the router is already serving (both routers get it): an exact static route
+			// for a path that may have been answered - and cached - by a dynamic route before
+			for _, r := range []*rux.Router{a, b} {
+				path := q.path
+				func() {
+					defer func() { _ = recover() }()
+					r.GET(path, func(c *rux.Context) { c.WriteString("[late route " + path + "]") })
+				}()
+			}
+			if classify {
+				ev.Class("history:route-added-after-requests")
+			}
+			continue
+		}
 		var before []string
 		if cache := a.VerifCache(); classify && cache != nil {
 			before = cache.VerifKeys()
@@ -229,6 +244,14 @@ func prop(t *rapid.T) {
 	}
 	for _, q := range hist {
 		ev.Class("request:" + p.tb.Resolve(q.method, q.path).Kind.String())
+	}
+	// lifecycle: now and then a static route for one of the pool's paths is registered in the middle of the history
+	if rapid.IntRange(0, 3).Draw(t, "lateRoute") == 0 && len(hist) > 2 {
+		k := rapid.IntRange(1, len(hist)-1).Draw(t, "lateAt")
+		lp := pool[rapid.IntRange(0, len(pool)-1).Draw(t, "latePath")].path
+		if model.Stable(lp, o.Strict) && !strings.ContainsAny(lp, "{}[]") {
+			hist = append(append(append([]req{}, hist[:k]...), req{"+GET", model.Normalize(lp, o.Strict)}), hist[k:]...)
+		}
 	}
 	if msg := runHistory(p, hist, true); msg != "" {
 		t.Fatalf("%s", msg)
